@@ -276,6 +276,12 @@ impl DiskIO {
                 .setup_sqpoll(IOURING_SQPOLL_IDLE_MS)
                 .build(IOURING_QUEUE_SIZE)
                 .ok();
+            #[cfg(feoxdb_verif)]
+            let ring: Option<IoUring> = if crate::verif::io::ring_disabled() {
+                None
+            } else {
+                ring
+            };
 
             if let Some(ref r) = ring {
                 let mut probe = Probe::new();
@@ -338,6 +344,12 @@ impl DiskIO {
     pub fn read_sectors_sync(&self, sector: u64, count: u64) -> Result<Vec<u8>> {
         let size = (count * FEOX_BLOCK_SIZE as u64) as usize;
         let offset = sector * FEOX_BLOCK_SIZE as u64;
+        #[cfg(all(feoxdb_verif, unix))]
+        if crate::verif::io::event(crate::verif::io::Kind::Read, self.fd, sector, size, &[])
+            != crate::verif::io::Decision::Proceed
+        {
+            return Err(crate::verif::io::injected());
+        }
 
         #[cfg(unix)]
         {
@@ -445,6 +457,18 @@ impl DiskIO {
     pub fn write_sectors_sync(&self, sector: u64, data: &[u8]) -> Result<()> {
         self.ensure_writable()?;
         let offset = sector * FEOX_BLOCK_SIZE as u64;
+        #[cfg(all(feoxdb_verif, unix))]
+        let verif_decision = crate::verif::io::event(
+            crate::verif::io::Kind::Write,
+            self.fd,
+            sector,
+            data.len(),
+            data,
+        );
+        #[cfg(all(feoxdb_verif, unix))]
+        if verif_decision == crate::verif::io::Decision::FailBefore {
+            return Err(crate::verif::io::injected());
+        }
 
         #[cfg(unix)]
         {
@@ -525,11 +549,22 @@ impl DiskIO {
             }
         }
 
+        #[cfg(all(feoxdb_verif, unix))]
+        if verif_decision == crate::verif::io::Decision::FailAfter {
+            return Err(crate::verif::io::injected());
+        }
         Ok(())
     }
 
     pub fn flush(&self) -> Result<()> {
         self.ensure_writable()?;
+        #[cfg(all(feoxdb_verif, unix))]
+        let verif_decision =
+            crate::verif::io::event(crate::verif::io::Kind::Fsync, self.fd, 0, 0, &[]);
+        #[cfg(all(feoxdb_verif, unix))]
+        if verif_decision == crate::verif::io::Decision::FailBefore {
+            return Err(crate::verif::io::injected());
+        }
         #[cfg(unix)]
         unsafe {
             if libc::fsync(self.fd) == -1 {
@@ -542,6 +577,10 @@ impl DiskIO {
             self._file.sync_all().map_err(FeoxError::IoError)?;
         }
 
+        #[cfg(all(feoxdb_verif, unix))]
+        if verif_decision == crate::verif::io::Decision::FailAfter {
+            return Err(crate::verif::io::injected());
+        }
         Ok(())
     }
 
@@ -802,6 +841,18 @@ impl DiskIO {
                 for (i, (sector, _)) in chunk.iter().enumerate() {
                     let offset = sector * FEOX_BLOCK_SIZE as u64;
                     let buffer = buffers.get(i);
+                    #[cfg(feoxdb_verif)]
+                    {
+                        let bytes =
+                            unsafe { std::slice::from_raw_parts(buffer.as_ptr(), buffer.len()) };
+                        let _ = crate::verif::io::event(
+                            crate::verif::io::Kind::RingWrite,
+                            self.fd,
+                            *sector,
+                            bytes.len(),
+                            bytes,
+                        );
+                    }
                     let write_e = opcode::Write::new(
                         types::Fd(self.fd),
                         buffer.as_ptr(),
